@@ -4,7 +4,7 @@ CONSTANTS
   MaxZ = 4
   Modes = {"default", "zone"}
   MinHedge = {0, 1, 3}
-  Terminals = {TRUE, FALSE}
+  Preds = {"nil", "never", "class", "all", "nottransient"}
   GenCancel = TRUE
   NoCancels = {TRUE, FALSE}
 INIT GInit
